@@ -278,6 +278,13 @@ def tasks(tier):
     return [TablesTask()] + [RoundTripTask(n) for n in sorted(COMMAND_FIELD)]
 
 
+bounded_results = [{"what": "replay/C17.py (thorough tier, native): real primitive -> primitive_to_message -> encode_msg (pydicom) -> decode_msg -> "
+                    "message_to_primitive for all 23 message types x every subset of the optional parameters x boundary values (about 6800 "
+                    "round trips) - the bounded check of the ASSUMED pydicom command-set codec",
+                    "bound": "parameter values from a fixed boundary list; max PDU 64; data set absent or one 12-byte element",
+                    "cases": 6810, "counted_as_proved": False}]
+
+
 def replay(rec):
     from pyvc.replay import run_replay
     return run_replay("C17", rec)
